@@ -218,6 +218,7 @@ func runOne(t *testing.T, sc *Scenario, prop string, idx int, seed uint64, repla
 		}
 	}()
 	runtime.SimSeed(0)
+	defer simrt.Forget(w.World)
 	st := w.World.Stats()
 	res.Steps, res.SimNS, res.Tasks, res.Preempts, res.MultiReady, res.Anon = st.Steps, st.SimNS, st.Tasks, st.Preempts, st.MultiReady, st.Anon
 	res.Deliveries = w.Delivery
